@@ -25,6 +25,18 @@ M = {
  'M17_C02_drop_item_on_close_round': ('v2/priority/priority.go', "\t\t\tprocessed += dsc.send(item, priority)\n\t\tdefault:\n\t\t\treturn processed", "\t\t\tif len(dsc.inputs[priority].Channel) == 0 && dsc.tactic[priority] == 1 {\n\t\t\t\tdsc.decreaseTactic(priority)\n\t\t\t\tcontinue\n\t\t\t}\n\n\t\t\tprocessed += dsc.send(item, priority)\n\t\tdefault:\n\t\t\treturn processed", ['C02']),
  'M18_C13_swapped': ('v2/limit/rate.go', "\tquotient := new(big.Int).Quo(product, ib)\n", "\tquotient := new(big.Int).Quo(product, ib)\n\tif quotient.Sign() == 0 {\n\t\tquotient.SetInt64(1)\n\t}\n\tif mb.Cmp(ib) == 0 {\n\t\tquotient.Add(quotient, big.NewInt(1))\n\t}\n", ['C13']),
  'M19_C14_rate_leftover_to_last': ('v2/priority/divider/divider.go', "\tdistribution[priorities[0]] += remainder\n", "\tdistribution[priorities[len(priorities)-1]] += remainder\n", ['C14']),
+ 'M21_C03_join2_lazy_start_check_then_act': ([
+    ('v2/join/join.go', 'import (\n', 'import (\n\t"sync/atomic"\n'),
+    ('v2/join/join.go', "\tgo dsc.main()\n\n\treturn dsc, nil\n", "\treturn dsc, nil\n"),
+    ('v2/join/join.go', "func (dsc *Discipline[Type]) Output() <-chan []Type {\n\treturn dsc.output\n", "func (dsc *Discipline[Type]) Output() <-chan []Type {\n\tif !dsc.started.Load() {\n\t\tdsc.started.Store(true)\n\n\t\tgo dsc.main()\n\t}\n\n\treturn dsc.output\n"),
+    ('v2/join/join.go', "\toutput            chan []Type\n", "\toutput            chan []Type\n\tstarted           atomic.Bool\n"),
+  ], None, None, ['C03']),
+ 'M22_C02_prio2_lazy_start_check_then_act': ([
+    ('v2/priority/priority.go', 'import (\n', 'import (\n\t"sync/atomic"\n'),
+    ('v2/priority/priority.go', "\tgo dsc.main()\n", ""),
+    ('v2/priority/priority.go', "func (dsc *Discipline[Type]) Output() <-chan types.Prioritized[Type] {\n\treturn dsc.output\n", "func (dsc *Discipline[Type]) Output() <-chan types.Prioritized[Type] {\n\tif !dsc.started.Load() {\n\t\tdsc.started.Store(true)\n\n\t\tgo dsc.main()\n\t}\n\n\treturn dsc.output\n"),
+    ('v2/priority/priority.go', "\toutput   chan types.Prioritized[Type]\n", "\toutput   chan types.Prioritized[Type]\n\tstarted  atomic.Bool\n"),
+  ], None, None, ['C02','C01']),
  'M20_C18_pickup_off_by_one': ('v2/priority/utils/utils.go', "\tfor quantity := maxQuantity; quantity != 0; quantity-- {\n\t\tif isNonFatalConfig(combinations, divider, quantity) {", "\tfor quantity := maxQuantity - 1; quantity != 0 && maxQuantity != 0; quantity-- {\n\t\tif isNonFatalConfig(combinations, divider, quantity) {", ['C18']),
 }
 
@@ -41,10 +53,15 @@ env=dict(os.environ, VERIF_REPO=S, VERIF_BUILD=f'/tmp/mutbuild.{os.getpid()}', V
 try:
     for n in names:
         f,old,new,props=M[n]
-        s=open(S+'/'+f).read()
-        if s.count(old)!=1:
-            print(n,'PATTERN NOT FOUND/AMBIGUOUS',s.count(old)); continue
-        open(S+'/'+f,'w').write(s.replace(old,new))
+        edits=f if isinstance(f,list) else [(f,old,new)]
+        bad=False
+        for (f,old,new) in edits:
+            s=open(S+'/'+f).read()
+            if s.count(old)!=1:
+                print(n,'PATTERN NOT FOUND/AMBIGUOUS',s.count(old),repr(old[:40])); bad=True; break
+            open(S+'/'+f,'w').write(s.replace(old,new))
+        if bad:
+            sh(f'git -C {S} checkout -q -- .'); continue
         try:
             for p in props:
                 t=time.time()
